@@ -8,11 +8,11 @@
 //   exist + checked here : variant(), variant(T&&) [exact alternative types, lvalue/rvalue; short->int for <int,char>],
 //                          variant(in_place_index<I>, v), variant(in_place_type<T>, v), copy/move ctor, copy/move assignment,
 //                          self copy-assignment, operator=(T&&), v = get<index>(v), construction / assignment from types that
-//                          are no alternative (short, signed/unsigned char, bool, unscoped enum, char; only where std accepts
-//                          them too), emplace<I>(v), emplace<T>(v), emplace<I>() [value-init],
+//                          are no alternative (short, signed/unsigned char, bool, unscoped enum, char, long, unsigned, double;
+//                          compared only where etl and std both accept the type), emplace<I>(v), emplace<T>(v), emplace<I>() [value-init],
 //                          etl::swap / ADL swap (generic 3-move swap), index(), holds_alternative<T>, get_if<I>/get_if<T>
 //                          (const and non-const), unchecked_get<I> (&, const&, &&, const&&), operator[](index_v<I>) (same 4),
-//                          visit(f, v) (lvalue / const / rvalue), visit(f, v, w), visit(f, v, w, u), visit_with_index,
+//                          visit(f) without variants, visit(f, v) (lvalue / const / rvalue / const rvalue), visit(f, v, w), visit(f, v, w, u), visit_with_index,
 //                          operator== != < <= > >= (!= through the C++20 rewrite of ==).
 //   do NOT exist / do not compile on this tree (not part of the check): variant::swap member, get<I>/get<T> (throwing
 //                          accessors), unchecked_get<T>, visit<R>, valueless_by_exception, variant_npos, hash<variant>,
@@ -354,13 +354,16 @@ struct Cfg {
                         }
                     };
                     enum Plain { plain_zero, plain_one, plain_two, plain_three }; // unscoped: promotes to int
-                    switch (op.a % 6) {
+                    switch (op.a % 9) {
                     case 0: one(static_cast<short>(v)); break;
                     case 1: one(static_cast<signed char>(v)); break;
                     case 2: one(static_cast<unsigned char>(v)); break;
                     case 3: one(v != 0); break;
                     case 4: one(static_cast<Plain>(v)); break;
-                    default: one(static_cast<char>(v)); break;
+                    case 5: one(static_cast<char>(v)); break;
+                    case 6: one(static_cast<long>(v)); break;     // long -> int is narrowing: std never picks int (P0608)
+                    case 7: one(static_cast<unsigned>(v)); break; // unsigned -> int is narrowing
+                    default: one(static_cast<double>(v)); break;  // double -> int is narrowing
                     }
                     break;
                 }
@@ -495,10 +498,11 @@ struct Cfg {
                         return lm.idx[0] * 100 + 7;
                     };
                     int re = 0;
-                    switch (op.b % 3) {
+                    switch (op.b % 4) {
                     case 0: re = etl::visit(fe, x); break;
                     case 1: re = etl::visit(fe, std::as_const(x)); break;
-                    default: re = etl::visit(fe, std::move(x)); break; // the visitor takes auto&&: nothing is moved
+                    case 2: re = etl::visit(fe, std::move(x)); break; // the visitor takes auto&&: nothing is moved
+                    default: re = etl::visit(fe, std::move(std::as_const(x))); break;
                     }
                     int rm = std::visit(fm, mx.v);
                     if (etl::visit([] { return 41; }) != std::visit([] { return 41; })) { err = "visit(f) without variants did not call f"; }
@@ -734,7 +738,7 @@ auto shapes(std::uint32_t code, std::size_t nalt, bool small) -> std::vector<Raw
         break;
     case C_CONV_OTHER:
     case A_CONV_OTHER:
-        for (std::uint32_t a = 0; a < 6; ++a) { out.push_back(RawOp{code, a, 0, 1U << 1}); }
+        for (std::uint32_t a = 0; a < 9; ++a) { out.push_back(RawOp{code, a, 0, 1U << 1}); }
         break;
     case C_CONV_PROMOTE:
         if (nalt == 2) {
@@ -750,7 +754,7 @@ auto shapes(std::uint32_t code, std::size_t nalt, bool small) -> std::vector<Raw
     case C_COPY:
     case A_COPY: out.push_back(RawOp{code, 0, 0, 0}), out.push_back(RawOp{code, 0, 1, 0}); break;
     case Q_VISIT1:
-        for (std::uint32_t b = 0; b < 3; ++b) { out.push_back(RawOp{code, 0, b, 0}); }
+        for (std::uint32_t b = 0; b < 4; ++b) { out.push_back(RawOp{code, 0, b, 0}); }
         break;
     case Q_VISIT2_Z:
     case Q_VISIT3:
